@@ -218,15 +218,13 @@ expiry.into()
 =>
 expiry as u64
 @@ subst Pool::allocate_address
-            expire: std::cmp::min(
-                std::cmp::max(lease.expire, min_expire_time),
-                max_expire_time,
-            ),
+std::cmp::min(
 =>
-            expire: verif_dur_min(
-                verif_dur_max(lease.expire, min_expire_time),
-                max_expire_time,
-            ),
+verif_dur_min(
+@@ subst Pool::allocate_address
+std::cmp::max(
+=>
+verif_dur_max(
 @@ subst Pool::allocate_address
 lease.ip.to_string()
 =>
@@ -268,6 +266,11 @@ invariant
 pub open spec fn holds(t: Table, x: std::net::Ipv4Addr, c: Seq<u8>, ts: int) -> bool { live_own(t, ip_str(x), c, ts) }
 pub open spec fn held_in_pool(t: Table, a: Set<std::net::Ipv4Addr>, x: std::net::Ipv4Addr, c: Seq<u8>, ts: int) -> bool { a.contains(x) && holds(t, x, c, ts) }
 pub open spec fn single_live(t: Table, c: Seq<u8>, ts: int) -> bool { forall|a: Seq<char>, b: Seq<char>| live_own(t, a, c, ts) && live_own(t, b, c, ts) ==> a == b }
+pub open spec fn c09_ok(t: Table, a: Set<std::net::Ipv4Addr>, requested: Option<std::net::Ipv4Addr>, c: Seq<u8>, ip: std::net::Ipv4Addr, ts: int) -> bool {
+    &&& forall|x: std::net::Ipv4Addr| #[trigger] held_in_pool(t, a, x, c, ts) ==> held_in_pool(t, a, ip, c, ts)
+    &&& (requested is Some && held_in_pool(t, a, requested->Some_0, c, ts) ==> ip == requested->Some_0)
+}
+pub open spec fn exhausted(t: Table, a: Set<std::net::Ipv4Addr>, ts: int) -> bool { forall|x: std::net::Ipv4Addr| a.contains(x) ==> in_use(t, #[trigger] ip_str(x), ts) }
 // another client's unexpired row on address text k
 pub open spec fn foreign_in_use(t: Table, k: Seq<char>, c: Seq<u8>, ts: int) -> bool { t.contains_key(k) && t[k].client != c && t[k].expiry >= ts }
 
@@ -292,6 +295,9 @@ ensures
         held_in_pool(old(self).view(), addrs_view(*addresses), ret->Ok_0.ip, clientid@, final(self).clock@),
     ret is Ok && requested is Some && held_in_pool(old(self).view(), addrs_view(*addresses), requested->Some_0, clientid@, final(self).clock@)
         ==> ret->Ok_0.ip == requested->Some_0,
+    // (the same three clauses, packaged for allocate_address)
+    ret is Ok ==> c09_ok(old(self).view(), addrs_view(*addresses), requested, clientid@, ret->Ok_0.ip, final(self).clock@),
+    ret is Err && ret->Err_0 is NoAssignableAddress ==> exhausted(old(self).view(), addrs_view(*addresses), final(self).clock@),
 
 
 @@ spec Pool::allocate_address
@@ -311,7 +317,14 @@ ensures
     // C01: the address was not held (unexpired) by anybody else
     ret is Ok ==> !foreign_in_use(old(self).view(), ip_str(ret->Ok_0.ip), clientid@, final(self).clock@),
     tbl_wf(final(self).view()),
+    // C09, at some clock reading t taken while the request was being processed:
+    // a client holding an address of the pool keeps one it holds -- the one it names, if it names one it holds;
+    // refused for lack of addresses only when every address of the pool is in use
+    ret is Ok ==> exists|t: int| old(self).clock@ <= t <= final(self).clock@ && #[trigger] c09_ok(old(self).view(), addrs_view(*addresses), requested, clientid@, ret->Ok_0.ip, t),
+    ret is Err && ret->Err_0 is NoAssignableAddress ==> exists|t: int| old(self).clock@ <= t <= final(self).clock@ && #[trigger] exhausted(old(self).view(), addrs_view(*addresses), t),
 
+@@ closure Pool::allocate_address ".map_err("
+|e: SqlErr| -> (r: Error) ensures r is DbError
 @@ loop Pool::select_address 1
 invariant
     self.conn == old(self).conn, self.clock@ == ts as int, 0 < ts < CLOCK_MAX(), tbl_wf(self.view()), self.clock@ >= old(self).clock@,
